@@ -73,6 +73,26 @@ def gen_case(rng):
 
 
 N_REAL = {"quick": 16, "thorough": 600}
+N_TRM = {"quick": 600, "thorough": 30000}
+
+
+def gen_trm_case(rng):
+    """Client side: one process drives joblib's TemporaryResourcesManager the way consecutive Parallel calls do
+    (contexts = Parallel objects, possibly reused), dumping files into the per-context folders, then exits or is killed."""
+    ctxs = ["ctxA", "ctxB"]
+    ops = []
+    for _ in range(rng.randint(1, 4)):                      # Parallel calls
+        cid = rng.choice(ctxs)
+        ops.append(["context", cid])
+        for k in range(rng.choice([0, 0, 1, 2])):
+            ops.append(["dump", cid, "arr%d" % rng.randrange(3)])
+        if rng.random() < 0.85:
+            ops.append(["clean", cid, rng.random() < 0.15])
+    ops.append([rng.choice(["kill", "kill", "exit"])])
+    cut = rng.randrange(len(ops)) if rng.random() < 0.3 else None     # killed in the middle of the history
+    if cut is not None:
+        ops = ops[:cut] + [["kill"]]
+    return {"trm": True, "ops": ops}
 
 
 def plan(tier, seed):
@@ -80,8 +100,124 @@ def plan(tier, seed):
     # cross-check of the pipe / EOF model the simulation rests on
     for i in range(N_REAL[tier] if not os.environ.get("VERIF_RUNS") else 4):
         yield dict(gen_case(random.Random(H(seed, PROP, "real", i))), real=True)
+    for i in range(N_TRM[tier] if not os.environ.get("VERIF_RUNS") else 50):
+        yield gen_trm_case(random.Random(H(seed, PROP, "trm", i)))
     for i in range(hz_runs(N_RUNS, tier)):
         yield gen_case(random.Random(H(seed, PROP, i)))
+
+
+def run_trm_case(case):
+    """The real TemporaryResourcesManager against a recording tracker client; the recorded command stream is then
+    processed by the real resource_tracker.main() (same reader seam as the simulated tier), the client being gone."""
+    import types
+    from joblib.externals.loky.backend import resource_tracker as rt
+    import joblib._memmapping_reducer as jmr
+    warnings.simplefilter("ignore")
+    root = tempfile.mkdtemp(prefix="c20t_", dir="/dev/shm")
+    try:
+        lines = []
+        rec = types.SimpleNamespace(
+            register=lambda name, rtype: lines.append(("REGISTER", name, rtype)),
+            unregister=lambda name, rtype: lines.append(("UNREGISTER", name, rtype)),
+            maybe_unlink=lambda name, rtype: lines.append(("MAYBE_UNLINK", name, rtype)))
+        finalizers = []
+        jmr.resource_tracker = rec
+        jmr.atexit = types.SimpleNamespace(register=lambda f: (finalizers.append(f), f)[1],
+                                          unregister=lambda f: finalizers.remove(f) if f in finalizers else None)
+        mgr = jmr.TemporaryResourcesManager(temp_folder_root=root, context_id="ctx0")
+        created = []
+        how = "kill"
+        # the tracker processes the commands concurrently with the client: apply each recorded line right away
+        registry = {"file": {}, "folder": {}}
+
+        def pump():
+            # deliver what has been recorded so far to a reference copy of the tracker's bookkeeping AND perform the
+            # deletions it implies, exactly as main() would (the real main() re-processes the whole stream at the end
+            # on a fresh copy of the directory state is not possible; so main() is run once, at the end, and the
+            # intermediate deletions are applied here through the real clean-up functions)
+            while pump.pos < len(lines):
+                cmd, name, rtype = lines[pump.pos]; pump.pos += 1
+                reg = registry[rtype]
+                if cmd == "REGISTER":
+                    reg[name] = reg.get(name, 0) + 1
+                elif cmd == "UNREGISTER":
+                    reg.pop(name, None)
+                elif cmd == "MAYBE_UNLINK" and name in reg:
+                    reg[name] -= 1
+                    if reg[name] == 0:
+                        del reg[name]
+                        try:
+                            rt._CLEANUP_FUNCS[rtype](name)
+                        except Exception:
+                            pass
+        pump.pos = 0
+        for op in case["ops"]:
+            if op[0] == "context":
+                mgr.set_current_context(op[1])
+            elif op[0] == "dump":
+                mgr.set_current_context(op[1])
+                folder = mgr.resolve_temp_folder_name()
+                os.makedirs(folder, exist_ok=True)
+                path = os.path.join(folder, op[2])
+                if not os.path.exists(path):
+                    open(path, "w").close()
+                    created.append(path)
+                rec.register(path, "file")          # what the memmapping reducer does for every dumped array
+                if folder not in created:
+                    created.append(folder)
+            elif op[0] == "clean":
+                pump()
+                mgr._clean_temporary_resources(context_id=op[1], force=op[2])
+            elif op[0] in ("kill", "exit"):
+                how = op[0]
+                break
+            pump()
+        if how == "exit":
+            for f in list(finalizers):              # interpreter exit: the atexit finalizers run
+                try:
+                    f()
+                except Exception:
+                    pass
+        pump()
+        # the client is gone: the tracker reaches EOF with `registry` as its state -> final clean-up by the REAL main()
+        # (fed with the REGISTER lines that rebuild exactly that state)
+        rebuild = []
+        for rtype, reg in registry.items():
+            for name, cnt in reg.items():
+                rebuild += [("REGISTER", name, rtype)] * cnt
+        feed = [("%s:%s:%s\n" % x).encode("ascii") for x in rebuild]
+
+        class Reader:
+            def __enter__(self):
+                return self
+
+            def __exit__(self, *a):
+                return False
+
+            def readline(self):
+                return feed.pop(0) if feed else b""
+        rt.open = lambda fd, mode="rb": Reader()
+        sys.excepthook = lambda *a: None
+        saved = sys.stdin, sys.stdout
+        sys.stdin = io.StringIO(); sys.stdout = io.StringIO()
+        try:
+            rt.main(-1)
+        finally:
+            sys.stdin, sys.stdout = saved
+        left = sorted(os.path.relpath(p_, root) for p_ in created if os.path.exists(p_))
+        extra = sorted(n for n in os.listdir(root))
+        verdict = None
+        if left or extra:
+            verdict = {"class": "temporary_leaked", "detail": "client history %s (%s): still on disk after the client is gone and the tracker has "
+                       "shut down: %s" % (case["ops"], how, (left or extra)[:4]), "sig": {"what": "temporary_leaked", "client_end": how}}
+        dg = hashlib.sha256(repr((lines, left)).encode()).hexdigest()
+        kinds = "".join(o[0][0] for o in case["ops"])
+        return {"verdict": verdict, "digest": dg[:24], "shape": "trm:" + hashlib.md5(repr(case["ops"]).encode()).hexdigest()[:12], "steps": len(lines),
+                "switches": 0, "sim_time": 0.0, "faults": {"client_killed" if how == "kill" else "client_exit": 1},
+                "probes": {"trm_histories": 1, "context_reused": int(len(set(o[1] for o in case["ops"] if o[0] == "context")) < sum(1 for o in case["ops"] if o[0] == "context"))},
+                "nontrivial": bool(created), "sample": {"trm": True, "ops": case["ops"][:8]}}
+    finally:
+        shutil.rmtree(root, ignore_errors=True)
 
 
 def _line(root, ev):
@@ -208,6 +344,8 @@ def run_real_case(case):
 def run_case(case):
     if case.get("real"):
         return run_real_case(case)
+    if case.get("trm"):
+        return run_trm_case(case)
     from joblib.externals.loky.backend import resource_tracker as rt
     warnings.simplefilter("ignore")
     root = tempfile.mkdtemp(prefix="c20_", dir="/dev/shm")
@@ -343,6 +481,11 @@ def run_case(case):
 
 
 def shrink(case):
+    if case.get("trm"):
+        ops = case["ops"]
+        for k in range(len(ops) - 1):
+            yield dict(case, ops=ops[:k] + ops[k + 1:])
+        return
     ev = case["events"]
     for k in range(len(ev)):
         yield dict(case, events=ev[:k] + ev[k + 1:])
